@@ -108,10 +108,11 @@ def _dedup_scope(fn):
     if len(body) != 1 or not isinstance(body[0], ast.If):
         raise ValueError('put_job: expected a single if statement')
     iff = body[0]
+    jobvar = fn.args.args[1].arg
     puts = [s for s in iff.body if not _is_log_call(s)]
     if (len(puts) != 1 or not isinstance(puts[0], ast.Expr) or not isinstance(puts[0].value, ast.Call)
             or _attr_chain(puts[0].value.func) != ['self', 'task_queue', 'put']
-            or [getattr(a, 'id', None) for a in puts[0].value.args] != ['job']):
+            or [getattr(a, 'id', None) for a in puts[0].value.args] != [jobvar]):
         raise ValueError('put_job: the then-branch is not `self.task_queue.put(job)`')
     if [s for s in iff.orelse if not _is_log_call(s)]:
         raise ValueError('put_job: the else-branch does more than logging')
@@ -132,7 +133,7 @@ def _dedup_scope(fn):
             for v in t.values:
                 walk(v)
         elif isinstance(t, ast.Compare) and len(t.ops) == 1 and isinstance(t.ops[0], (ast.NotIn, ast.NotEq)) \
-                and getattr(t.left, 'id', None) == 'job':
+                and getattr(t.left, 'id', None) == jobvar:
             for n in ast.walk(t.comparators[0]):
                 if isinstance(n, ast.Attribute):
                     ch = _attr_chain(n)
@@ -159,12 +160,17 @@ def _process_task_facts(fn):
           for t in first.targets]
     has_cur = any(isinstance(t, ast.Subscript) and _attr_chain(t.value) == ['self', 'status']
                   and getattr(t.slice, 'value', None) == 'current job' for t in first.targets)
-    if not (has_cur and ['job'] in tg and isinstance(first.value, ast.Call)
+    names = [t.id for t in first.targets if isinstance(t, ast.Name)]
+    if len(names) != 1:
+        raise ValueError('process_task: the job is not bound to one local name')
+    jobvar = names[0]
+    if not (has_cur and isinstance(first.value, ast.Call)
             and _attr_chain(first.value.func) == ['self', 'task_queue', 'get'] and not first.value.args):
         raise ValueError("process_task: first statement is not job = self.status['current job'] = self.task_queue.get()")
     tr = body[1]
     if len(tr.body) != 1 or not (isinstance(tr.body[0], ast.Expr) and isinstance(tr.body[0].value, ast.Call)
-                                 and _attr_chain(tr.body[0].value.func) == ['self', 'process']):
+                                 and _attr_chain(tr.body[0].value.func) == ['self', 'process']
+                                 and [getattr(a, 'id', None) for a in tr.body[0].value.args] == [jobvar]):
         raise ValueError('process_task: try body is not self.process(job)')
     if tr.orelse:
         raise ValueError('process_task: unexpected else clause')
@@ -175,14 +181,14 @@ def _process_task_facts(fn):
     # handler body: status = type(err).__name__ ; details = None ; if not isinstance(err, T1): details=str elif isinstance(err, T2): details=str
     status_typename, details_none, none_bases, str_bases = False, False, None, None
     for st in h.body:
-        if isinstance(st, ast.Assign) and _attr_chain(st.targets[0]) == ['job', 'status']:
+        if isinstance(st, ast.Assign) and _attr_chain(st.targets[0]) == [jobvar, 'status']:
             v = st.value
             if (isinstance(v, ast.Attribute) and v.attr == '__name__' and isinstance(v.value, ast.Call)
                     and getattr(v.value.func, 'id', '') == 'type' and getattr(v.value.args[0], 'id', '') == h.name):
                 status_typename = True
             else:
                 raise ValueError('process_task: job.status is not type(err).__name__')
-        elif isinstance(st, ast.Assign) and _attr_chain(st.targets[0]) == ['job', 'details']:
+        elif isinstance(st, ast.Assign) and _attr_chain(st.targets[0]) == [jobvar, 'details']:
             if isinstance(st.value, ast.Constant) and st.value.value is None:
                 details_none = True
             else:
@@ -199,7 +205,7 @@ def _process_task_facts(fn):
                 for s in stmts:
                     if _is_log_call(s):
                         continue
-                    if (isinstance(s, ast.Assign) and _attr_chain(s.targets[0]) == ['job', 'details']
+                    if (isinstance(s, ast.Assign) and _attr_chain(s.targets[0]) == [jobvar, 'details']
                             and isinstance(s.value, ast.Call) and getattr(s.value.func, 'id', '') == 'str'
                             and getattr(s.value.args[0], 'id', '') == h.name):
                         got = True
@@ -233,11 +239,11 @@ def _process_task_facts(fn):
             raise ValueError('process_task: unexpected statement in finally: ' + ast.dump(st)[:100])
         ch = _attr_chain(st.value.func)
         args = st.value.args
-        if ch == ['job', 'complete'] and not args:
+        if ch == [jobvar, 'complete'] and not args:
             fin.append('complete')
         elif ch == ['self', 'task_queue', 'task_done'] and not args:
             fin.append('task_done')
-        elif ch == ['self', 'tasks_done', 'appendleft'] and [getattr(a, 'id', None) for a in args] == ['job']:
+        elif ch == ['self', 'tasks_done', 'appendleft'] and [getattr(a, 'id', None) for a in args] == [jobvar]:
             fin.append('record')
         elif ch == ['self', 'status', 'pop'] and len(args) == 1 and getattr(args[0], 'value', None) == 'current job':
             fin.append('clear')
@@ -246,7 +252,7 @@ def _process_task_facts(fn):
     for need in ('complete', 'task_done', 'record', 'clear'):
         if fin.count(need) != 1:
             raise ValueError('process_task: `%s` is not (exactly once) in the finally block' % need)
-    if getattr(body[2].value, 'id', None) != 'job':
+    if getattr(body[2].value, 'id', None) != jobvar:
         raise ValueError('process_task: does not return job')
     return caught, none_bases, str_bases, fin
 
@@ -767,7 +773,7 @@ def explore(cfg, bound, visit, tau_reduce=False, max_runs=None):
 
 # ======================================================================================== domain
 
-P1, P2, C1, A0 = ('P', 1), ('P', 2), ('C', 1), ('A', 0)
+P1, P2, C1, C2, A0 = ('P', 1), ('P', 2), ('C', 1), ('C', 2), ('A', 0)
 SHAPES_ALL = [[1], [2], [1, 1], [2, 1], [1, 1, 1], [2, 2], [2, 1, 1], [2, 2, 1], [2, 2, 2]]
 
 
@@ -798,7 +804,7 @@ def configs(shape, alphabet):
 def plan(ctx):
     """List of work units.  ('dfs', cfg, bound, tau_reduce, cap) | ('rand', cfg, n, seed) | ('fixed', cfg, prefix, model_prefix)"""
     units = []
-    main, alt = [P1, P2, A0], [P1, C1, A0]
+    main, alt = [P1, P2, A0], [C1, C2, P1]      # 2 keys + an API job | 2 commits + the PR with the id of one
     seed = ctx.seed * 1000003
     if ctx.quick:
         # every outcome kind on the smallest shape, line-level, all schedules with <= 2 preemptions
@@ -814,8 +820,12 @@ def plan(ctx):
                 n += 1
                 units.append(('rand', cfg, 8, seed + n))
         # and bounded exhaustive enumeration on the two-request races
-        for cfg in configs([1, 1], main):
-            units.append(('dfs', cfg, 2, True, None))
+        for i, cfg in enumerate(configs([1, 1], main)):
+            units.append(('dfs', cfg, 1, False, None))
+            if i < 2:                               # equal keys / different keys
+                units.append(('dfs', cfg, 2, True, None))
+        for cfg in configs([1, 1], alt)[:2]:
+            units.append(('dfs', cfg, 1, False, None))
         return units
     for o in OUTCOMES:
         for j in (P1, A0, C1):
@@ -1047,11 +1057,13 @@ def stress(seconds=2.0):
         alive = [t for t in ths if t.is_alive()]
         lost = 0
         starts.sort(key=lambda x: x[0])
+        still_waiting = list(b.task_queue.queue)      # a request may finish its put after the worker stopped
         for (t, job) in accepted:
-            if not any(ts >= t and (j is job or j == job) for ts, j in starts):
+            if not any(ts >= t and (j is job or j == job) for ts, j in starts) \
+                    and not any(j is job or j == job for j in still_waiting):
                 lost += 1
         return {'seconds': seconds, 'accepted': len(accepted), 'rejected_5xx': rejected[0], 'started': len(starts),
-                'finished': len(b.tasks_done), 'lost': lost, 'worker_died': dead, 'threads_stuck': len(alive),
+                'finished': len(b.tasks_done), 'still_waiting': len(still_waiting), 'lost': lost, 'worker_died': dead, 'threads_stuck': len(alive),
                 'marker_left': 'current job' in b.status}
     finally:
         sys.setswitchinterval(old)
@@ -1111,8 +1123,8 @@ def run(ctx, units=None):
         'distinct_nontrivial = schedules (distinct by construction inside an enumeration, possibly repeated between '
         'random units) in which, while a request was between its arrival and its put/skip/rejection, another '
         'thread made a step touching shared state' % (
-            'quick: all schedules with <= 2 preemptions for 1 event x every outcome kind (line level) and for 2 threads '
-            'x 1 event (preemption only in front of segments touching shared state), plus seeded random schedules '
+            'quick: all schedules with <= 2 preemptions for 1 event x every outcome kind (line level), <= 1 for 2 threads x '
+            '1 event (line level) and <= 2 for two of them (preemption only in front of segments touching shared state), plus seeded random schedules '
             '(any number of preemptions) over all shapes' if ctx.quick else
             'thorough: exhaustive enumeration, line level: <= 3 preemptions for shapes [1], [2]; <= 2 for [1,1]; <= 1 for '
             '[1,1,1]; preemption only in front of segments touching shared state (the others commute): <= 3 for [1,1], '
